@@ -168,7 +168,8 @@ def alias_case(sh, rng, D):
             leaf = decimal.Decimal(rng.randrange(-50, 50)) / 4 if "Decimal" in shape else None
             if d <= 0:
                 return leaf if leaf is not None else []
-            kids = [value(d - 1) for _ in range(rng.choice([1, 1, 2]))]
+            # branching only near the leaves: a deep value follows one spine (size linear in depth, not exponential)
+            kids = [value(d - 1) for _ in range(rng.choice([1, 1, 2]) if d <= 6 else 1)]
             opts = []
             if "dict[str, {A}]" in shape:
                 opts.append({f"k{j}": k for j, k in enumerate(kids)})
